@@ -13,7 +13,7 @@ subprocess.check_call(['git', '-C', SCR, 'checkout', '-q', '--', '.'])
 sel = sys.argv[1:]
 res_path = '/verif/mutants/results.json'
 results = json.load(open(res_path)) if os.path.exists(res_path) else {}
-env = dict(os.environ, VERIF_REPO=SCR, VERIF_BUILD=BLD, VERIF_BUDGET=os.environ.get('VERIF_BUDGET', '30'), VERIF_FUZZ_SECONDS='6')
+env = dict(os.environ, VERIF_REPO=SCR, VERIF_BUILD=BLD, VERIF_BUDGET=os.environ.get('VERIF_BUDGET', '30'), VERIF_FUZZ_SECONDS='6', VERIF_OUT=os.environ.get('VERIF_OUT', '/tmp/p/mutout'))
 for mid, prop, path, old, new in M:
     if sel and not any(s in mid for s in sel):
         continue
